@@ -1,5 +1,5 @@
-\* emission: one observation line per (th, bc, c) and one line per generator step
-CONSTANTS R = 12  MaxLevel = 2
+\* emission: one observation line per (th, bc, c, pitch) and one line per generator / changePitch step
+CONSTANTS R = 12  MaxLevel = 2  RectPitches <- RectP  SquarePitches <- SquareP
 ACTION_CONSTRAINT Emit
 INVARIANT EmitState
 INIT Init
